@@ -331,6 +331,7 @@ def rule_rank_agree(ctx):
                     # GAP-GUARD: only if the successor is still smaller than the next key
                     want = ('op', '<', ('sym', 'S'), ('sym', 'NEXT'))
                     okg = False
+                    unrelated = False
                     seen = []
                     e = _resolve_index_locals(f, e)        # `const size_t last = end - 1;`
                     for (t, lab) in conds:
@@ -348,6 +349,13 @@ def rule_rank_agree(ctx):
                             if is_in_call(s_) and _lin_diff_is(in_arg(s_), e, 1):
                                 nxt = s_
                         if nxt is None:
+                            # the successor compared with a key read at an index this rule cannot place relative to e (the end of a
+                            # run found by a loop): a driver organised differently - not a verdict
+                            for c_ in subterms(tt):
+                                if isinstance(c_, tuple) and len(c_) == 4 and c_[0] == 'op' and c_[1] in ('<', '>', '<=', '>='):
+                                    for s_ in subterms(c_):
+                                        if is_in_call(s_) and not _lin_diff_const(in_arg(s_), e):
+                                            unrelated = True
                             continue
                         cur = [s_ for s_ in subterms(tt) if is_in_call(s_) and _lin_diff_is(in_arg(s_), e, 0)]
                         t2 = _replace(tt, nxt, ('sym', 'NEXT'))
@@ -359,7 +367,8 @@ def rule_rank_agree(ctx):
                         if _implies(t2, want):
                             okg = True
                     obs.append(Ob('GAP-GUARD', f, c, 'the successor of a duplicated key is added only if it is smaller than the next key (keeps x strictly increasing)',
-                                  'guarded by ' + (' & '.join(seen) or 'nothing'), OK if okg else VIOLATED, arm='gap'))
+                                  'guarded by ' + (' & '.join(seen) or 'nothing') + (' - the next key is read at an index this rule cannot relate to the rank of the point' if (unrelated and not okg) else ''),
+                                  OK if okg else (UNDECIDED if unrelated else VIOLATED), arm='gap'))
                 continue
             obs.append(Ob('RANK-AGREE', f, c, 'add_point(in(e), e) or a successor point', f"add_point({fmt_term(xt)[:60]}, {fmt_term(yt)})", VIOLATED, arm='other'))
     return obs
@@ -391,6 +400,15 @@ def _resolve_succ_locals(f, t):
             return t
         return tuple(_resolve_succ_locals(f, x) for x in t)
     return t
+
+
+def _lin_diff_const(a, b):
+    """a - b is a compile-time constant (the two index terms are related)"""
+    try:
+        va, vb = form.value(nocast(strip_cast(a))), form.value(nocast(strip_cast(b)))
+        return len(va) == 1 and len(vb) == 1 and (va[0][1] - vb[0][1]).is_const()
+    except Exception:
+        return False
 
 
 def _lin_diff_is(a, b, k):
@@ -999,7 +1017,7 @@ def rule_geom_guards(ctx, exact=True):
                 # clang splits && / || over several blocks: keep only the whole conditions (blocks terminated by the `if`)
                 if g.blocks[cb].get('term_c') != 'IfStmt':
                     continue
-                if skip_pred(fm, tt):
+                if skip_pred(fm, tt, cb):
                     continue
                 parts.append(fm if lab else ('!', fm))
             if not parts:
@@ -1009,7 +1027,7 @@ def rule_geom_guards(ctx, exact=True):
                 out = ('&&', out, p_)
             return out
 
-        def is_bootstrap(fm, tt):
+        def is_bootstrap(fm, tt, cb=None):
             return any(s == ('field', 'points_in_hull', THIS) or s == ('field', 'last_x', THIS) for s in subterms(tt))
         # --- cut
         rets = [r for r in f.returns() if reachable(f, r) and f.n(r)['ch'] and f.term(f.n(r)['ch'][0], inline=True) == ('lit', 0)]
@@ -1037,11 +1055,20 @@ def rule_geom_guards(ctx, exact=True):
             if not asg:
                 obs.append(Ob('GEOM-GUARDS', f, 0, f"{name}: a block that re-anchors rectangle[{corner}]", 'not found', VIOLATED, arm=name))
                 continue
+            # the conditions the rejecting return hangs on are the cut test, whatever they say (their correctness is the `cut` arm's
+            # obligation; a slip there is reported once, not again as a consequence in the tighten arms)
+            cut_blocks = set()
+            for r in rets:
+                for (t_, lab_, cn_, cb_) in conds_of_b(f, r, inline=False):
+                    if g.blocks[cb_].get('term_c') == 'IfStmt' and not is_bootstrap(None, nocast(strip_cast(t_))):
+                        cut_blocks.add(cb_)
             for i in asg:
                 cutf = spec_cut
 
-                def skip(fm, tt, cutf=cutf):
+                def skip(fm, tt, cb=None, cutf=cutf):
                     if is_bootstrap(fm, tt):
+                        return True
+                    if cb in cut_blocks:
                         return True
                     ok_, _ = order_equivalent(fm, cutf, implies=not exact)
                     return ok_
